@@ -59,27 +59,32 @@ const (
 
 // vfConn is the scripted transport.
 type vfConn struct {
-	lmu       sync.Mutex // a net.Conn is safe for concurrent use: guards the bookkeeping below
-	in        []byte
-	rpos      int
-	cut       int // bytes [cut:] are never delivered
-	rfault    int // what happens at the cut
-	chunkMode int
-	script    []int
-	spos      int
-	nreads    int
-	rerr      error
+	lmu           sync.Mutex // a net.Conn is safe for concurrent use: guards the bookkeeping below
+	in            []byte
+	rpos          int
+	cut           int // bytes [cut:] are never delivered
+	rfault        int // what happens at the cut
+	chunkMode     int
+	script        []int
+	spos          int
+	nreads        int
+	rerr          error
 	transientDone bool
 
-	ops     []vfOp
-	wfailAt int // index among write-side ops (Write, SetWriteDeadline); -1: never
-	wfault  int // 1: error, nothing written; 2: timeout, nothing written; 3: short write + error
-	nwops   int
-	wfailed bool
+	ops       []vfOp
+	wfailAt   int // index among write-side ops (Write, SetWriteDeadline); -1: never
+	wfault    int // 1: error, nothing written; 2: timeout, nothing written; 3: short write + error
+	nwops     int
+	wfailed   bool
 	afterFail int // transport Write calls begun after a fault
-	closed  int
-	onWrite func(p []byte) // scripted peers react to what was written
-	pipe    net.Conn       // native replay of TLS paths: bytes go to a real peer instead of the script
+	closed    int
+	onWrite   func(p []byte) // scripted peers react to what was written
+	pipe      net.Conn       // native replay of TLS paths: bytes go to a real peer instead of the script
+
+	// deadline tracking (C16): the deadline in force at each transport Read / Write
+	trackDL  bool
+	dlR, dlW time.Time
+	dlAtOp   []time.Time
 }
 
 func vfNewConn(in []byte) *vfConn {
@@ -98,6 +103,11 @@ func (c *vfConn) faultErr() error {
 
 func (c *vfConn) Read(p []byte) (int, error) {
 	vfYield() // the transport may block here for arbitrarily long
+	if c.trackDL {
+		c.lmu.Lock()
+		c.dlAtOp = append(c.dlAtOp, c.dlR)
+		c.lmu.Unlock()
+	}
 	if c.pipe != nil {
 		n, err := c.pipe.Read(p)
 		c.lmu.Lock()
@@ -174,6 +184,9 @@ func (c *vfConn) Write(p []byte) (int, error) {
 	vfYield() // the transport may block here for arbitrarily long
 	c.lmu.Lock()
 	defer c.lmu.Unlock()
+	if c.trackDL {
+		c.dlAtOp = append(c.dlAtOp, c.dlW)
+	}
 	if c.wfailed {
 		c.afterFail++
 	}
@@ -220,6 +233,7 @@ func (c *vfConn) SetDeadline(t time.Time) error {
 	c.lmu.Lock()
 	defer c.lmu.Unlock()
 	c.ops = append(c.ops, vfOp{kind: vfOpSetDeadline, t: t})
+	c.dlR, c.dlW = t, t
 	return nil
 }
 
@@ -227,6 +241,7 @@ func (c *vfConn) SetReadDeadline(t time.Time) error {
 	c.lmu.Lock()
 	defer c.lmu.Unlock()
 	c.ops = append(c.ops, vfOp{kind: vfOpSetReadDeadline, t: t})
+	c.dlR = t
 	return nil
 }
 
@@ -243,6 +258,7 @@ func (c *vfConn) SetWriteDeadline(t time.Time) error {
 		return vfErrInjected
 	}
 	c.ops = append(c.ops, vfOp{kind: vfOpSetWriteDeadline, t: t})
+	c.dlW = t
 	return nil
 }
 
@@ -337,9 +353,9 @@ func (p *vfPool) Put(v interface{}) {
 // vfChunkReader is an io.Reader over data returning at most chunk bytes per
 // call; used to drive ReadFrom / io.Copy.
 type vfChunkReader struct {
-	data  []byte
-	pos   int
-	chunk int
+	data        []byte
+	pos         int
+	chunk       int
 	eofWithData bool
 }
 
